@@ -501,7 +501,7 @@ def _judge(plan, jp, job, K, mon, result, fstate, end, want_log, ref, ginfo):
         if left:
             viol.append(("C05", "child_left", dict(left=left, end=end), dict(sig_base, fault=kinds[-1], left_kinds=sorted({n.split(".")[-1].rstrip("0123456789") or "executor" for n in left}))))
         if segs and not left:
-            viol.append(("C05", "segment_left", dict(n=len(segs), end=end), dict(sig_base, fault=kinds[-1])))
+            viol.append(("C05", "segment_left", dict(n=len(segs), end=end, fired=kinds), dict(sig_base, fault=kinds[-1], shm_killed="kill:shm" in kinds)))
         elif segs:
             K.probe("segments_left_with_children")
 
